@@ -11,7 +11,7 @@ import re
 
 REPO = os.environ.get("MOS_REPO", "/repo")
 ROOT = os.path.dirname(os.path.dirname(os.path.abspath(__file__)))
-GEN = os.path.join(ROOT, "coq", "theories", "Gen")
+GEN = os.path.join(os.environ.get("VERIF_OUT", ROOT), "coq", "theories", "Gen")
 
 
 class ShapeError(Exception):
